@@ -18,8 +18,9 @@
    adjoint identity, rho/sigma reciprocity.  The *_given_tiling theorems are
    the same facts for an arbitrary weight list under explicit hypotheses; the
    bounded vm_compute theorem is kept as an independent cross-check. *)
-From Coq Require Import Reals ZArith Bool List Arith QArith Sorted.
+From Coq Require Import Reals ZArith Bool String List Arith QArith Sorted.
 From V Require Import Base.FieldSig Base.ExecQ Model.VolAvg Proofs.VolAvg Proofs.VolAvgInd.
+From V Require Import Model.I2GOpts Proofs.I2GOpts.
 Import ListNotations.
 Local Open Scope R_scope.
 
@@ -247,3 +248,110 @@ Print Assumptions va_log_conserves.
 Example sorted_grids_exist : sorted [0; 1; 3] /\ sorted [0; 2; 3] /\ sorted [0; 1].
 Proof. exact sorted_example. Qed.
 Print Assumptions sorted_grids_exist.
+
+(* ======== option resolution in front of the averaging: no memory (round 6) =====
+   Model/I2GOpts.v: the tables of defaults of Model.interpolate_to_grid /
+   Field.interpolate_to_grid are the state; a call (entry point, user options)
+   is a step  state -> call -> state * route;  [run] is a history of calls
+   (Model / Field / Simulation.get_model / maps.interpolate, arbitrary options,
+   calls that raise included).  [tp] stands for the third-party routines that
+   serve the other methods. *)
+
+(* no call changes the tables of defaults *)
+Theorem i2g_defaults_never_change (cs : list call) (st : defaults) : fst (run st cs) = st.
+Proof. exact (run_state cs st). Qed.
+Print Assumptions i2g_defaults_never_change.
+
+(* whatever was called before, with whatever options: a call answers as if it
+   were the first one of the process *)
+Theorem i2g_call_history_independent (cs cs' : list call) (c : call) :
+  snd (step (fst (run defaults0 cs)) c) = snd (step (fst (run defaults0 cs')) c).
+Proof. exact (call_history_independent cs cs' c). Qed.
+Print Assumptions i2g_call_history_independent.
+
+(* a later call without options uses the volume averaging (log flag from its
+   own mapping) and returns the volume-average map of its own model *)
+Theorem i2g_default_after_history_is_volume_average
+        tp (cs : list call) lg s t (T : list (R * idx3 * idx3)) vol v o :
+  snd (step (fst (run defaults0 cs)) (default_call lg s t)) = RVolume lg /\
+  interp_result tp (snd (step (fst (run defaults0 cs)) (default_call lg s t))) T vol v o
+  = Some (if lg then apply_va_log idx3_eqb T vol v o
+          else apply_va idx3_eqb T vol (fun _ => 0) v o).
+Proof. exact (conj (default_after_history cs lg s t)
+                   (default_result_after_history tp cs lg s t T vol v o)). Qed.
+Print Assumptions i2g_default_after_history_is_volume_average.
+
+(* hence the clauses of C15 hold for it after ANY history: log-integral
+   conserved (Resistivity / Conductivity) ... *)
+Theorem i2g_default_after_history_conserves_log
+        tp (cs : list call) s t nx ny nz mx my mz (v : idx3 -> R) :
+  sorted nx -> sorted ny -> sorted nz -> sorted mx -> sorted my -> sorted mz ->
+  (2 <= length nx)%nat -> (2 <= length ny)%nat -> (2 <= length nz)%nat ->
+  (2 <= length mx)%nat -> (2 <= length my)%nat -> (2 <= length mz)%nat ->
+  nth 0 nx 0 = nth 0 mx 0 -> nth (length nx - 1) nx 0 = nth (length mx - 1) mx 0 ->
+  nth 0 ny 0 = nth 0 my 0 -> nth (length ny - 1) ny 0 = nth (length my - 1) my 0 ->
+  nth 0 nz 0 = nth 0 mz 0 -> nth (length nz - 1) nz 0 = nth (length mz - 1) mz 0 ->
+  exists out : idx3 -> R,
+    (forall o, interp_result tp (snd (step (fst (run defaults0 cs)) (default_call true s t)))
+                 (trip3 (va_weights Rleb nx mx) (va_weights Rleb ny my) (va_weights Rleb nz mz))
+                 (vol3 mx my mz) v o = Some (out o))
+    /\ sumL (fun o => vol3 mx my mz o * log10R (out o)) (cells3 mx my mz)
+       = sumL (fun i => vol3 nx ny nz i * log10R (v i)) (cells3 nx ny nz).
+Proof. exact (default_conserves_log_after_history tp cs s t nx ny nz mx my mz v). Qed.
+Print Assumptions i2g_default_after_history_conserves_log.
+
+(* ... range and integral (the Lg / Ln mappings: linear mode) *)
+Theorem i2g_default_after_history_in_range
+        tp (cs : list call) s t nx ny nz mx my mz (v : idx3 -> R) a b c m M :
+  sorted nx -> sorted ny -> sorted nz -> sorted mx -> sorted my -> sorted mz ->
+  (1 <= length nx)%nat -> (1 <= length ny)%nat -> (1 <= length nz)%nat ->
+  (a + 1 < length mx)%nat -> (b + 1 < length my)%nat -> (c + 1 < length mz)%nat ->
+  (forall i, m <= v i <= M) ->
+  exists r : R,
+    interp_result tp (snd (step (fst (run defaults0 cs)) (default_call false s t)))
+       (trip3 (va_weights Rleb nx mx) (va_weights Rleb ny my) (va_weights Rleb nz mz))
+       (vol3 mx my mz) v (a, b, c) = Some r
+    /\ m <= r <= M.
+Proof. exact (default_in_range_after_history tp cs s t nx ny nz mx my mz v a b c m M). Qed.
+Print Assumptions i2g_default_after_history_in_range.
+
+Theorem i2g_default_after_history_conserves
+        tp (cs : list call) s t nx ny nz mx my mz (v : idx3 -> R) :
+  sorted nx -> sorted ny -> sorted nz -> sorted mx -> sorted my -> sorted mz ->
+  (2 <= length nx)%nat -> (2 <= length ny)%nat -> (2 <= length nz)%nat ->
+  (2 <= length mx)%nat -> (2 <= length my)%nat -> (2 <= length mz)%nat ->
+  nth 0 nx 0 = nth 0 mx 0 -> nth (length nx - 1) nx 0 = nth (length mx - 1) mx 0 ->
+  nth 0 ny 0 = nth 0 my 0 -> nth (length ny - 1) ny 0 = nth (length my - 1) my 0 ->
+  nth 0 nz 0 = nth 0 mz 0 -> nth (length nz - 1) nz 0 = nth (length mz - 1) mz 0 ->
+  exists out : idx3 -> R,
+    (forall o, interp_result tp (snd (step (fst (run defaults0 cs)) (default_call false s t)))
+                 (trip3 (va_weights Rleb nx mx) (va_weights Rleb ny my) (va_weights Rleb nz mz))
+                 (vol3 mx my mz) v o = Some (out o))
+    /\ sumL (fun o => vol3 mx my mz o * out o) (cells3 mx my mz)
+       = sumL (fun i => vol3 nx ny nz i * v i) (cells3 nx ny nz).
+Proof. exact (default_conserves_after_history tp cs s t nx ny nz mx my mz v). Qed.
+Print Assumptions i2g_default_after_history_conserves.
+
+(* non-vacuity: user options do change the route of THEIR call (linear with a
+   fill value; the target grid cannot be overridden), a Field sent to the volume
+   routine and a call with a 'values' option are rejected -- and the default
+   calls that follow are volume averaging again *)
+Example i2g_history_run :
+  route_of (resolve defaults0
+     {| c_entry := ModelI2G true; c_src := 0; c_tgt := 1;
+        c_user := [("method", OStr "linear"); ("fill_value", ONum 3); ("xi", OGrid 7)]%string |})
+  = ROther (OStr "linear") true true [("fill_value", ONum 3)]%string
+  /\ dget "xi" (resolve defaults0
+     {| c_entry := ModelI2G true; c_src := 0; c_tgt := 1;
+        c_user := [("method", OStr "linear"); ("xi", OGrid 7)]%string |}) = Some (OGrid 1)
+  /\ snd (run defaults0
+       [ {| c_entry := ModelI2G true; c_src := 0; c_tgt := 1;
+            c_user := [("method", OStr "linear")]%string |};
+         {| c_entry := FieldI2G; c_src := 0; c_tgt := 1;
+            c_user := [("method", OStr "volume")]%string |};
+         {| c_entry := Direct; c_src := 0; c_tgt := 1; c_user := [("values", ONone)]%string |};
+         default_call true 0 1; default_call false 0 1 ])
+     = [ROther (OStr "linear") true true []; RVolume false; RTypeError; RVolume true; RVolume false]
+  /\ entry_accepts FieldI2G (RVolume false) = false.
+Proof. exact resolve_example. Qed.
+Print Assumptions i2g_history_run.
